@@ -85,6 +85,7 @@ func c11Scores[T comparable, P Object[T]](r *Report, im *Impl[T, P], a spec.Assi
 
 // CheckC11 — every score is a finite one-decimal number in range.
 func CheckC11(r *Report) {
+	ColdStart(r)
 	thorough := r.Tier == "thorough"
 	r.Rule = "E3 scorespace: every scoring method (v2: 3, v3: 3, v4: 1) on every v2 assignment, every v3 effective class (canonical and all-overridden representations) and every v4 effective class (canonical, all-overridden, supplemental defined): no panic, finite, == float64(k)/10 with 0<=k<=100 (v2 environmental: k<=100 only, per the property's exception), Rating accepts it (3.0/3.1/4.0); distinct = distinct objects scored"
 	var vals Counter
